@@ -402,16 +402,29 @@ def _impl():
     return _IMPL["H"]
 
 
-def run_dh(base, alg):
-    """-> ("ok", result) | ("raised", text) | ("hang", "")"""
+def run_dh(base, alg, form="abs"):
+    """-> ("ok", result) | ("raised", text) | ("hang", "")
+
+    form: how the directory is named - "abs" absolute path, "dot" Path(".") from inside it, "rel" its name from its parent."""
     H = _impl()
+    cwd = os.getcwd()
     try:
+        if form == "dot":
+            os.chdir(base)
+            arg = Path(".")
+        elif form == "rel":
+            os.chdir(os.path.dirname(str(base)))
+            arg = Path(os.path.basename(str(base)))
+        else:
+            arg = Path(base)
         with env.watchdog(env.step_timeout()):
-            return "ok", H.dir_hashsums(Path(base), alg)
+            return "ok", H.dir_hashsums(arg, alg)
     except env.StepTimeout:
         return "hang", ""
     except Exception as e:  # noqa: BLE001
         return "raised", f"{type(e).__name__}: {e}"
+    finally:
+        os.chdir(cwd)
 
 
 def evaluate(t, sp, orders=("fwd", "rev"), algs=("sha256", "sha512")):
@@ -425,7 +438,8 @@ def evaluate(t, sp, orders=("fwd", "rev"), algs=("sha256", "sha512")):
             for alg in algs:
                 if alg != "sha256" and o != orders[-1]:
                     continue
-                out[(o, alg)] = run_dh(base, alg)
+                # the second build is also NAMED differently: "." from inside (sha256), by name from the parent (sha512)
+                out[(o, alg)] = run_dh(base, alg, "abs" if o == orders[0] else ("dot" if alg == "sha256" else "rel"))
         finally:
             env.rmtree(root)
     return out
@@ -490,7 +504,7 @@ def judge_tree(t, sp):
         viols.append(
             _v(
                 "creation-order-or-mtime-dependent",
-                f"same content built in two orders/mtimes: {r_f!r} != {r_r!r}",
+                f"same content built in two orders/mtimes (first named by absolute path, second as Path('.') from inside): {r_f!r} != {r_r!r}",
             )
         )
     # file entries == alg:hashlib
